@@ -578,8 +578,9 @@ func (e *Engine) callWrites(f *ssa.Function, ci ssa.CallInstruction, ws *WriteSe
 	if b, ok := c.Value.(*ssa.Builtin); ok {
 		switch b.Name() {
 		case "delete":
-			ws.addKey(mapKey(c.Args[0].Type()), nil)
-			ws.addKey(mapDomKey(c.Args[0].Type()), nil)
+			// like a map update: only the map object named by the argument changes
+			ws.addKey(mapKey(c.Args[0].Type()), c.Args[0])
+			ws.addKey(mapDomKey(c.Args[0].Type()), c.Args[0])
 		case "copy":
 			// copy into a slice: handled like an element store on its base
 			if k, ok := e.staticStoreKey(&ssa.IndexAddr{X: c.Args[0]}); ok && k != "" {
